@@ -375,6 +375,12 @@ def c07(tier, seed):
         scenario("cat_x_mrder", [cat("A", 3), mr("B", 4, derived={3: {"of": [1, 2], "at": "before", "ref": 1},
                                                                   4: {"of": [1, 2], "at": "bottom"}})]),
         scenario("mrder_1d", [mr("A", 4, derived={2: {"of": [1, 3], "at": "after", "ref": 4}})]),
+        # anchors that name no item (stale), before / after, mixed with a bottom item: all go
+        # to the bottom group in payload order
+        scenario("mrstale_x_cat", [mr("A", 5, derived={2: {"of": [1, 3], "at": "after", "ref": 9},
+                                                        4: {"of": [1], "at": "bottom"},
+                                                        5: {"of": [3], "at": "before", "ref": 8}}),
+                                   cat("B", 2)]),
     ]
     scns = _with_order_configs(scns, n, seed)
     for s in scns:
@@ -662,6 +668,8 @@ def c13(tier, seed):
         scenario("cat_x_mr.ov", [cat("A", 3, miss=[2]), mr("B", 3)], overlaps=True, weighted=False),
         scenario("cat_x_mr.ovw", [cat("A", 2), mr("B", 2)], overlaps=True),
         scenario("mr_x_mr.ov", [mr("A", 2), mr("B", 2)], overlaps=True, weighted=False),
+        scenario("cat_x_cat_x_cat.sq", [cat("T", 3, miss=[1]), cat("A", 2), cat("B", 3)],
+                 squared_weights=True),
     ]
     base += C.fractional([base[1], base[2], base[3], base[8]])
     pws = [None, {"alpha": [0.05, 0.1], "only_larger": False}, {"alpha": [0.01]},
@@ -669,7 +677,7 @@ def c13(tier, seed):
     scns = []
     for i, s in enumerate(base):
         s = dict(s)
-        rd, cd = s["dims"]
+        rd, cd = s["dims"][-2:]
         cfgs = [configs.DEFAULT]
         cfgs += configs.insertion_configs(rd, cd, n, seed * 83 + i, max_ins=1)
         cfgs += configs.order_configs(rd, cd, n, seed * 89 + i)
